@@ -135,6 +135,49 @@ func genClosure(thorough bool) Gen {
 				body = append(body, Label("cont"))
 				return []Stat{Local1("i", Num(0)), Repeat(Name("done"), body...), Label("out"), Emit(Str("after-loop"))}
 			}},
+			{"repeat-or-first", true, func(exit []Stat, at int) []Stat {
+				// the loop ends because a non-last operand of the until-expression is true
+				body := []Stat{Assign1(Name("i"), Bin("+", Name("i"), Num(1))), Local1("v", Bin("*", Name("i"), Num(10))), Local1("done", Bin(">=", Name("i"), Num(3)))}
+				body = append(body, pair("v", "done")...)
+				body = append(body, cond("i", at, exit)...)
+				body = append(body, Label("cont"))
+				return []Stat{Local1("i", Num(0)), Repeat(Bin("or", Name("done"), Bin(">=", Name("i"), Num(99))), body...), Label("out"), Local(names("o1", "o2", "o3"), Str("over1"), Str("over2"), Str("over3")), Emit(Str("after-loop"), Name("o1"))}
+			}},
+			{"repeat-or-last", true, func(exit []Stat, at int) []Stat {
+				body := []Stat{Assign1(Name("i"), Bin("+", Name("i"), Num(1))), Local1("v", Bin("*", Name("i"), Num(10))), Local1("done", Bin(">=", Name("i"), Num(3)))}
+				body = append(body, pair("v", "done")...)
+				body = append(body, cond("i", at, exit)...)
+				body = append(body, Label("cont"))
+				return []Stat{Local1("i", Num(0)), Repeat(Bin("or", Bin(">=", Name("i"), Num(99)), Name("done")), body...), Label("out"), Local(names("o1", "o2", "o3"), Str("over1"), Str("over2"), Str("over3")), Emit(Str("after-loop"), Name("o1"))}
+			}},
+			{"repeat-and", true, func(exit []Stat, at int) []Stat {
+				body := []Stat{Assign1(Name("i"), Bin("+", Name("i"), Num(1))), Local1("v", Bin("*", Name("i"), Num(10))), Local1("done", Bin(">=", Name("i"), Num(3)))}
+				body = append(body, pair("v", "done")...)
+				body = append(body, cond("i", at, exit)...)
+				body = append(body, Label("cont"))
+				return []Stat{Local1("i", Num(0)), Repeat(Bin("and", Name("done"), Bin(">=", Name("i"), Num(3))), body...), Label("out"), Local(names("o1", "o2", "o3"), Str("over1"), Str("over2"), Str("over3")), Emit(Str("after-loop"), Name("o1"))}
+			}},
+			{"while-and-or", true, func(exit []Stat, at int) []Stat {
+				body := []Stat{Assign1(Name("i"), Bin("+", Name("i"), Num(1))), Local1("v", Bin("*", Name("i"), Num(10)))}
+				body = append(body, pair("v")...)
+				body = append(body, cond("i", at, exit)...)
+				body = append(body, Label("cont"))
+				return []Stat{Local1("i", Num(0)), While(Bin("or", Bin("and", Bin("<", Name("i"), Num(3)), Name("fns")), Bin("<", Name("i"), Num(0))), body...), Label("out"), Local(names("o1", "o2"), Str("over1"), Str("over2")), Emit(Str("after-loop"), Name("o1"))}
+			}},
+			{"nested-do-capture", true, func(exit []Stat, at int) []Stat {
+				inner := []Stat{Local1("z", Bin("*", Name("i"), Num(10)))}
+				inner = append(inner, pair("z", "i")...)
+				inner = append(inner, cond("i", at, exit)...)
+				body := []Stat{Do(inner...), Label("cont")}
+				return []Stat{NumFor("i", Num(1), Num(3), nil, body...), Label("out"), Local(names("o1", "o2", "o3"), Str("over1"), Str("over2"), Str("over3")), Emit(Str("after-loop"), Name("o1"))}
+			}},
+			{"nested-if-capture", true, func(exit []Stat, at int) []Stat {
+				inner := []Stat{Local1("z", Bin("*", Name("i"), Num(10)))}
+				inner = append(inner, pair("z")...)
+				inner = append(inner, cond("i", at, exit)...)
+				body := []Stat{Assign1(Name("i"), Bin("+", Name("i"), Num(1))), If(Bin(">", Name("i"), Num(0)), inner...), Label("cont")}
+				return []Stat{Local1("i", Num(0)), While(Bin("<", Name("i"), Num(3)), body...), Label("out"), Local(names("o1", "o2", "o3"), Str("over1"), Str("over2"), Str("over3")), Emit(Str("after-loop"), Name("o1"))}
+			}},
 			{"numfor", true, func(exit []Stat, at int) []Stat {
 				body := append([]Stat{}, pair("i")...)
 				body = append(body, cond("i", at, exit)...)
@@ -241,6 +284,21 @@ func genClosure(thorough bool) Gen {
 				return []Stat{Emit(Str("p"), CallN("xpcall", Func(nil, false, CallS(Name("error"), Str("e"))), Func(names("m"), false, Return(Str("h")))))}
 			}},
 			{"pcall(ok)", func() []Stat { return []Stat{Emit(Str("p"), CallN("pcall", Func(nil, false, Return(Num(1)))))} }},
+			{"goto-forward", func() []Stat { return []Stat{Goto("fwd"), Emit(Str("skipped")), Label("fwd"), Emit(Str("p"))} }},
+			{"goto-out-of-block", func() []Stat {
+				return []Stat{Do(Local1("inner", Num(1)), Local1("ic", Func(nil, false, Return(Name("inner")))), If(Name("inner"), Goto("outb")), Emit(Str("skipped"))), Label("outb"), Emit(Str("p"))}
+			}},
+			{"goto-backward", func() []Stat {
+				return []Stat{Local1("gn", Num(0)), Label("again"), Assign1(Name("gn"), Bin("+", Name("gn"), Num(1))), If(Bin("<", Name("gn"), Num(3)), Goto("again")), Emit(Str("p"), Name("gn"))}
+			}},
+			{"loop-break", func() []Stat { return []Stat{NumFor("bi", Num(1), Num(3), nil, If(Bin("==", Name("bi"), Num(2)), Break())), Emit(Str("p"))} }},
+			{"loop-break-nested-capture", func() []Stat {
+				return []Stat{NumFor("bi", Num(1), Num(3), nil, Do(Local1("bz", Bin("*", Name("bi"), Num(10))), push(Func(nil, false, Assign1(Name("bz"), Bin("+", Name("bz"), Num(1))), Return(Name("bz")))), If(Bin("==", Name("bi"), Num(2)), Break()))),
+					Local(names("o1", "o2", "o3"), Str("over1"), Str("over2"), Str("over3")), Emit(Str("p"), Name("o1"))}
+			}},
+			{"loop-continue", func() []Stat {
+				return []Stat{NumFor("bi", Num(1), Num(2), nil, Local1("cz", Name("bi")), push(Func(nil, false, Return(Name("cz")))), Goto("cnt"), Emit(Str("skipped")), Label("cnt")), Emit(Str("p"))}
+			}},
 			{"resume(error)", func() []Stat {
 				return []Stat{Local1("co", CallN("coroutine.create", Func(nil, false, CallS(Name("error"), Str("e"))))), Emit(Str("p"), Paren(CallN("coroutine.resume", Name("co"))))}
 			}},
